@@ -24,7 +24,7 @@ func init() {
 		NotCovered: "the string form of each value (strconv formatting is chosen by gogen's `.string` member lookup), and that gogen's Concat call evaluates its operands in push order.",
 		Run:        runC05,
 		Controls: []Control{
-			{Name: "constant-part-folded", File: "cl/expr.go", Old: "\t\t\tt := cb.Get(-1).Type\n\t\t\tif t.Underlying() != types.Typ[types.String] {\n\t\t\t\tif _, err := cb.Member(\"string\", gogen.MemberFlagAutoProperty); err != nil {", New: "\t\t\tt := cb.Get(-1).Type\n\t\t\tif e := cb.Get(-1); e.CVal != nil && t.Underlying() != types.Typ[types.String] {\n\t\t\t\tcb.InternalStack().PopN(1)\n\t\t\t\tcb.Val(e.CVal.String(), v)\n\t\t\t} else if t.Underlying() != types.Typ[types.String] {\n\t\t\t\tif _, err := cb.Member(\"string\", gogen.MemberFlagAutoProperty); err != nil {", Expect: "string-conversion/in-place"},
+			{Name: "constant-part-folded", File: "cl/expr.go", Old: "\t\t\tif t.Underlying() != types.Typ[types.String] {\n\t\t\t\tif _, err := cb.Member(\"string\", gogen.MemberFlagAutoProperty); err != nil {", New: "\t\t\tif e := cb.Get(-1); e.CVal != nil && t.Underlying() != types.Typ[types.String] {\n\t\t\t\tcb.InternalStack().PopN(1)\n\t\t\t\tcb.Val(e.CVal.String(), v)\n\t\t\t} else if t.Underlying() != types.Typ[types.String] {\n\t\t\t\tif _, err := cb.Member(\"string\", gogen.MemberFlagAutoProperty); err != nil {", Expect: "string-conversion/in-place"},
 			{Name: "concat-arity-minus-one", File: e, Old: "\t\tcb.CallWith(n, 0, lit)", New: "\t\tcb.CallWith(n-1, 0, lit)", Expect: "concat-arity/compileStringLitEx"},
 			{Name: "expr-compiled-twice", File: e, Old: "\t\t\tcompileExpr(ctx, v, flags)\n\t\t\tt := cb.Get(-1).Type", New: "\t\t\tcompileExpr(ctx, v, flags)\n\t\t\tif flags != 0 {\n\t\t\t\tcb.ResetStmt()\n\t\t\t\tcompileExpr(ctx, v, 0)\n\t\t\t}\n\t\t\tt := cb.Get(-1).Type", Expect: "part-once/compileStringLitEx:expr"},
 			{Name: "dollar-strip-two", File: e, Old: "\t\t\t\tv = v[:len(v)-1]\n", New: "\t\t\t\tv = v[:len(v)-2]\n", Expect: "dollar-convention/compiler"},
